@@ -99,6 +99,19 @@ Example ex_C09_satisfiable :
   forallb (fun E => ex_check E (ex_tree 0) && ex_check E (ex_tree 1) && ex_check E (ex_tree 3)) shipped_formats = true.
 Proof. exact ex_hypotheses_satisfiable. Qed.
 
+(* why the condition on names cannot be dropped: in Han the name `a具` directly followed by the copula `有`
+   is the SAME text as the name `a` followed by the copula `具有` (different meanings); unamb accepts exactly
+   the reading the parser takes, and one space after the name makes the first reading unambiguous.  So "removing
+   all spaces leaves the parse unchanged" is only true of texts whose names do not run into a keyword. *)
+Example ex_C09_han_same_text :
+  let t1 := SStmt arm_property 0 0 0 0 (SAtom arm_word [97; 20855]%N) (SAtom arm_word [20540]%N) in
+  let t2 := SStmt arm_instance_property 0 0 0 0 (SAtom arm_word [97]%N) (SAtom arm_word [20540]%N) in
+  let t1' := SStmt arm_property 0 1 0 0 (SAtom arm_word [97; 20855]%N) (SAtom arm_word [20540]%N) in
+  render FORMAT_HAN t1 = render FORMAT_HAN t2 /\ odesugar t1 <> odesugar t2 /\
+  unamb ex_alnum FORMAT_HAN t1 [] = false /\ unamb ex_alnum FORMAT_HAN t2 [] = true /\
+  unamb ex_alnum FORMAT_HAN t1' [] = true.
+Proof. exact ex_han_same_text. Qed.
+
 (* unamb really excludes something: a Han name containing the inheritance copula *)
 Example ex_C09_unamb_rejects :
   unamb ex_alnum FORMAT_HAN (SAtom arm_word [97; 26159; 98]%N) [] = false /\
